@@ -1604,6 +1604,43 @@ pub fn g_network_change_event(u: &mut U) -> NetworkChangeEvent {
     NetworkChangeEvent::new(&id, u.string(), u.hash(), g_merge_outcome(u))
 }
 
+pub fn g_audit_event(u: &mut U) -> sos_audit::AuditEvent {
+    use sos_audit::{AuditData, AuditEvent};
+    let time = u.utc();
+    let k = u.below(35) as u16;
+    let kind = sos_core::events::EventKind::try_from(k).unwrap_or_default();
+    u.cls(format!("AuditEvent:kind#{}", k));
+    let account = g_account_id(u);
+    let data = match u.below(5) {
+        0 => {
+            u.cls("AuditData:None");
+            None
+        }
+        1 => {
+            u.boundary("AuditData::Vault");
+            Some(AuditData::Vault(u.uuid()))
+        }
+        2 => {
+            u.boundary("AuditData::Secret");
+            Some(AuditData::Secret(u.uuid(), u.uuid()))
+        }
+        3 => {
+            u.boundary("AuditData::MoveSecret");
+            Some(AuditData::MoveSecret {
+                from_vault_id: u.uuid(),
+                from_secret_id: u.uuid(),
+                to_vault_id: u.uuid(),
+                to_secret_id: u.uuid(),
+            })
+        }
+        _ => {
+            u.boundary("AuditData::Device");
+            Some(AuditData::Device(g_device_public_key(u)))
+        }
+    };
+    AuditEvent::new(time, kind, account, data)
+}
+
 // ---------------------------------------------------------------------------
 // equality projections
 // ---------------------------------------------------------------------------
@@ -1708,6 +1745,22 @@ pub fn eq_device_event(a: &DeviceEvent, b: &DeviceEvent) -> Result<(), String> {
         (DeviceEvent::Trust(x), DeviceEvent::Trust(y)) => eq_json(x, y).map_err(|e| format!("Trust{}", e)),
         _ => eq_std(a, b),
     }
+}
+
+pub fn eq_audit_event(a: &sos_audit::AuditEvent, b: &sos_audit::AuditEvent) -> Result<(), String> {
+    if a.time() != b.time() {
+        return Err(format!("time: {:?} vs {:?}", a.time(), b.time()));
+    }
+    if a.event_kind() != b.event_kind() {
+        return Err(format!("event_kind: {:?} vs {:?}", a.event_kind(), b.event_kind()));
+    }
+    if a.account_id() != b.account_id() {
+        return Err(format!("account_id: {} vs {}", a.account_id(), b.account_id()));
+    }
+    if a.data() != b.data() {
+        return Err(format!("data: {:?} vs {:?}", a.data(), b.data()));
+    }
+    Ok(())
 }
 
 pub fn eq_vault_meta(a: &VaultMeta, b: &VaultMeta) -> Result<(), String> {
@@ -2132,6 +2185,8 @@ pub fn types() -> Vec<TypeDef> {
         bin!("Summary", "vault", Summary, g_summary, eq_std, describe_dbg),
         bin!("SharedAccess", "vault", SharedAccess, g_shared_access, eq_std, describe_dbg),
         bin!("VaultMeta", "vault-meta", VaultMeta, g_vault_meta, eq_vault_meta, describe_json),
+        // ---- binary: audit log
+        bin!("AuditEvent", "audit", sos_audit::AuditEvent, g_audit_event, eq_audit_event, describe_dbg),
         // ---- binary: secrets
         bin!("SecretMeta", "secret", SecretMeta, g_secret_meta, eq_secret_meta, describe_dbg),
         bin!("Secret", "secret", Secret, g_secret, eq_secret, describe_json),
